@@ -10,12 +10,10 @@ PROP = dict(
         "ntp_proto::packet::NtpPacket::{deserialize, timestamp_response, deny_response, nts_nak_response, serialize} as reached from handle",
     ],
     bounds=("datagrams of 0..=52 bytes: every length; first byte (LI/version/mode) constant per call: versions 3/4 client mode with LI 0..3 samples "
-            "(0x1B,0x5B,0x23,0xE3,0xA3) for answered requests, all 7 non-client modes for v3/v4, version fields 0,1,2,6,7 and NTPv5 modes 3/4 for rejected ones, "
-            "first bytes 0x23/0x1B/0x2B/0x03 for lengths 0,1,24,47 (quick) and 0x23 for every length 0..=47 (thorough); all other bytes symbolic. Policy: deny and allow list = any union of the sixteen /4 subnets per family "
+            "(0x1B,0x5B,0x23,0xE3,0xA3) for answered requests, all 7 non-client modes of v3 and v4 (48 and 52 B) for ignored ones; all other bytes symbolic. Policy: deny and allow list = any union of the sixteen /4 subnets per family "
             "(16-bit symbolic masks for IPv4 and IPv6 each, 0 = empty list, 0xffff = /0), both actions, require-nts in {None, Ignore, Deny}, accepted versions = "
             "any list of 0..=3 versions, rate-limit cache size 0 or 1 with the slot in an arbitrary pre-state, cutoff any Duration < 2^40 s. Client: any IPv4, "
-            "IPv6 or IPv4-mapped IPv6 address. Rejected datagrams under symbolic policy: non-client modes (thorough); under the two concrete policies that would "
-            "otherwise answer: all listed first bytes/lengths. "
+            "IPv6 or IPv4-mapped IPv6 address. "
             + _seam),
     outside=("lists with masks longer than /4 (IpFilter::new is decided by C31; here the real lookup runs on raw one-node tries); symbolic LI/version/mode bits "
              "within one call (CBMC prunes only by constant propagation: measured >5 min/4.7 GB in symex); symbolic policy outcome on the wire half (3 response "
@@ -41,20 +39,14 @@ PROP = dict(
         H(NS, "c15", "c15_policy_v3", "policy half, NTPv3 client request 48 B", bounds="first byte 0x1B, len 48"),
         H(NS, "c15", "c15_policy_v6", "policy half, IPv6 and IPv4-mapped clients (LI=2)", bounds="first byte 0xA3, len 48"),
         H(NS, "c15", "c15_policy_ratelimit", "policy half with one rate-limit slot in an arbitrary pre-state, all client families; cache touched only by clients that passed both lists", bounds="first byte 0x23, len 48", timeout=400),
-        H(NS, "c15", "c15_reject_wire_modes_v4", "whole handle(), policies 'everybody allowed' and 'deny list + deny': NTPv4 in all 7 non-client modes (48/52 B): never answered"),
-        H(NS, "c15", "c15_reject_wire_versions", "whole handle(), same two policies: version fields 0,1,2,6,7: never answered"),
-        H(NS, "c15", "c15_reject_wire_trailing", "whole handle(), same two policies: 1..3 trailing bytes after a v3/v4 client header: never answered"),
-        H(NS, "c15", "c15_reject_short", "whole handle(), same two policies: lengths 0,1,24,47 with first bytes v4/v3/v5 client and version 0: never answered"),
+        H(NS, "c15", "c15_reject_mode4", "policy half, symbolic policy, all client families: a well-formed NTPv4 datagram in server mode (4) is ignored under every policy; a malformed one gets no DENY kiss either"),
         H(NS, "c16", "c16_wire_v4_time", "whole handle(): allowed client gets a time answer (bytes classified, timestamps, stratum)"),
         H(NS, "c16", "c16_wire_v4_deny", "whole handle(): deny-listed client gets exactly a DENY kiss"),
         H(NS, "c16", "c16_wire_v4_deny_nts", "whole handle(): plain request denied when NTS is required (action deny)"),
         H(NS, "c15", "c15_policy_v4_mac", "policy half, NTPv4 + 4-byte MAC (LI=3)", tier="thorough", bounds="first byte 0xE3, len 52"),
         H(NS, "c15", "c15_policy_v3_mac", "policy half, NTPv3 + 4-byte MAC (LI=1)", tier="thorough", bounds="first byte 0x5B, len 52"),
-        H(NS, "c15", "c15_reject_wire_modes_v3", "whole handle(): NTPv3 in all 7 non-client modes", tier="thorough"),
         H(NS, "c15", "c15_reject_modes_v4", "policy half, symbolic policy: NTPv4 in every non-client mode (48 and 52 B) is ignored", tier="thorough"),
         H(NS, "c15", "c15_reject_modes_v3", "policy half, symbolic policy: NTPv3 in every non-client mode is ignored", tier="thorough"),
-        H(NS, "c15", "c15_reject_short_all", "whole handle(): every length 0..=47, NTPv4 client first byte", tier="thorough"),
-        H(NS, "c15", "c15_reject_wire_v5", "whole handle(): NTPv5 header alone (request and response mode): never answered", tier="thorough"),
         H(NS, "c16", "c16_wire_v4_deny_allow", "whole handle(): client outside the allow list gets a DENY kiss", tier="thorough"),
         H(NS, "c16", "c16_wire_v3_time", "whole handle(): NTPv3 time answer", tier="thorough"),
         H(NS, "c16", "c16_wire_v3_deny", "whole handle(): NTPv3 DENY kiss", tier="thorough"),
